@@ -118,8 +118,8 @@ fn item<C: Suite>(ctx: &mut Ctx, share_kind: &str, src: &str, rep: usize) {
         }
         "refreshed" => {
             let Ok(g0) = dealer_group::<C>(3, 2, None, None, &mut krng) else { return };
-            let Ok((sh, _)) = frost_core::keys::refresh::compute_refreshing_shares::<C, _>(g0.pkp.clone(), &g0.ids, &mut krng) else { return };
-            match frost_core::keys::refresh::refresh_share::<C>(sh[0].clone(), &g0.kps[&g0.ids[0]]) {
+            let Ok((sh, _)) = C::api_compute_refreshing_shares(g0.pkp.clone(), &g0.ids, &mut krng) else { return };
+            match C::api_refresh_share(sh[0].clone(), &g0.kps[&g0.ids[0]]) {
                 Ok(kp) => *kp.signing_share(),
                 Err(_) => return,
             }
@@ -135,7 +135,7 @@ fn item<C: Suite>(ctx: &mut Ctx, share_kind: &str, src: &str, rep: usize) {
     let m = 1 + rep % 3;
     for j in 0..m {
         let before = rng.total();
-        let (nn, cc) = round1::commit::<C, _>(&share, &mut rng);
+        let (nn, cc) = C::api_commit(&share, &mut rng);
         if rng.total() - before != 64 {
             ctx.viol("random-bytes-consumed", "commit", json!({"consumed": rng.total() - before, "expected": 64, "source": src}));
         }
@@ -194,9 +194,9 @@ fn item<C: Suite>(ctx: &mut Ctx, share_kind: &str, src: &str, rep: usize) {
     let mut r1 = make_rng(ctx, src, rep);
     let mut r2 = make_rng(ctx, src, rep);
     let mut r3 = make_rng(ctx, src, rep);
-    let (a, _) = round1::commit::<C, _>(&share, &mut r1);
-    let (b, _) = round1::commit::<C, _>(&other, &mut r2);
-    let (c, _) = round1::commit::<C, _>(&share, &mut r3);
+    let (a, _) = C::api_commit(&share, &mut r1);
+    let (b, _) = C::api_commit(&other, &mut r2);
+    let (c, _) = C::api_commit(&share, &mut r3);
     if a.hiding() == b.hiding() || a.binding() == b.binding() {
         ctx.viol("share-not-mixed-in", "", json!({"source": src, "share": hex::encode(share.serialize())}));
     }
@@ -207,7 +207,7 @@ fn item<C: Suite>(ctx: &mut Ctx, share_kind: &str, src: &str, rep: usize) {
     let mut rng = make_rng(ctx, src, rep);
     let shares = [share, other, share];
     for (j, s) in shares.iter().enumerate() {
-        let (nn, cc) = round1::commit::<C, _>(s, &mut rng);
+        let (nn, cc) = C::api_commit(s, &mut rng);
         let stream = rng.stream.clone();
         let mut local = Seen { map: BTreeMap::new(), rev: BTreeMap::new() };
         check_pair::<C>(ctx, &mut local, s, &stream, j, &nn, &cc, "interleaved", false);
